@@ -889,7 +889,7 @@ def main():
     ck.build()
     use_model = ck.build_ok is not False or os.path.exists(os.path.join(ck.pkgdir, ".lake/build/bin/drv_c04"))
     th = ck.tier == "thorough"
-    explore(ck, ck.budget(300, 2500), ck.budget(60, 400), ck.budget(120, 800), ck.budget(4, 30), 3000 if th else 300, use_model)
+    explore(ck, ck.budget(300, 2500), ck.budget(60, 400), ck.budget(120, 800), min(ck.budget(4, 30), 30 if th else 8), 3000 if th else 300, use_model)
     if ck.broken() and not ck.violations:
         explore(ck, 1500, 200, 400, 4, 300, use_model=False)
     ck.finish()
